@@ -71,6 +71,16 @@ def opRespSend (args : List String) (impl : String) : Verdict :=
     let table := triples.map fun tr => (tr, realScheme.verify tr.1 tr.2.1 tr.2.2)
     let S := memoScheme table
     let contentFail : Option String :=
+      (fun (r : Option String × List (Nat × Bytes × Bytes)) =>
+        match r.1 with
+        | some e => some e
+        | none =>
+          -- every request whose return address CAN be sent to must have got its reply, whatever happened to the
+          -- sends before it in the batch
+          match r.2.find? (fun e => e.1 < 50) with
+          | some e => some ("C09,C02,C17: the request queued for reachable address " ++ toString e.1 ++
+              " got no reply (another send of the batch failed; this one cannot)")
+          | none => none)
       (dgs.foldl (fun (acc : Option String × List (Nat × Bytes × Bytes)) d =>
         match acc.1 with
         | some e => (some e, acc.2)
@@ -79,7 +89,7 @@ def opRespSend (args : List String) (impl : String) : Verdict :=
           | some e => (none, acc.2.erase e)
           | none => (some ("C02,C09,C17: a datagram received at address " ++ toString d.1 ++ " (" ++ toString d.2.length ++
               " bytes) is not a valid response for any request still outstanding for that address"), acc.2))
-        (none, entries)).1
+        (none, entries))
     let l1v : Option String :=
       if contentFail.isSome then contentFail
       else if t 0 ≠ recvN then some ("C17: " ++ toString (t 0) ++ " responses recorded but " ++ toString recvN ++ " datagrams actually sent (received by the harness)")
